@@ -24,7 +24,7 @@ pub fn def() -> CheckDef {
             real: super::REAL_COMPONENTS,
             stub: super::STUB_COMPONENTS,
         },
-        runs: |t| if t.thorough() { 40_000 } else { 1_200 },
+        runs: |t| if t.thorough() { 200_000 } else { 10_000 },
         run,
         execute,
         expected_probes: &["link_to_sentinel_file", "link_to_sentinel_dir", "link_absolute", "link_dotdot", "dest_prepopulated_refused", "dest_absent", "overwrite_restore", "subtree_selection", "exclude_selection"],
